@@ -196,21 +196,24 @@ func toPropertyDescriptor(rt *runtime, value Value) property {
 
 func (rt *runtime) fromPropertyDescriptor(descriptor property) *object {
 	obj := rt.newObject()
-	if descriptor.isDataDescriptor() {
-		obj.defineProperty("value", descriptor.value.(Value), 0o111, false)
-		obj.defineProperty("writable", boolValue(descriptor.writable()), 0o111, false)
-	} else if descriptor.isAccessorDescriptor() {
-		getSet := descriptor.value.(propertyGetSet)
+	if getSet, isAccessor := descriptor.value.(propertyGetSet); isAccessor {
+		// Decide by what is stored, not by the mode: an accessor property may carry
+		// a mode that reads as a data descriptor (a function's "caller" is created
+		// that way), and asserting its value to be a Value panicked.
 		get := Value{}
-		if getSet[0] != nil {
+		if getSet[0] != nil && getSet[0] != &nilGetSetObject {
 			get = objectValue(getSet[0])
 		}
 		set := Value{}
-		if getSet[1] != nil {
+		if getSet[1] != nil && getSet[1] != &nilGetSetObject {
 			set = objectValue(getSet[1])
 		}
 		obj.defineProperty("get", get, 0o111, false)
 		obj.defineProperty("set", set, 0o111, false)
+	} else if descriptor.isDataDescriptor() {
+		value, _ := descriptor.value.(Value)
+		obj.defineProperty("value", value, 0o111, false)
+		obj.defineProperty("writable", boolValue(descriptor.writable()), 0o111, false)
 	}
 	obj.defineProperty("enumerable", boolValue(descriptor.enumerable()), 0o111, false)
 	obj.defineProperty("configurable", boolValue(descriptor.configurable()), 0o111, false)
